@@ -271,7 +271,7 @@ type opObs struct {
 	last     uint64
 	roots    []rootObs
 	// node-level record (badger only)
-	puts, removed, reach []int
+	puts, removed, reach, inl []int
 }
 
 type known struct {
@@ -304,6 +304,7 @@ type runner struct {
 	ref    refState
 	nodeID map[hash.Hash]int
 	reach  map[int][]int       // rid -> node ids
+	inl    map[int][]int       // rid -> node ids stored inline
 	putAt  map[int]map[int]bool // ver -> node ids put by accepted commits of that version
 	viol   []string
 	finds  []string
@@ -315,6 +316,7 @@ type runner struct {
 	lastDiscarded, lastFinal []int            // rids discarded / kept by the last successful finalize
 	findings []finding
 	stopOracle bool
+	outOfDomain bool
 }
 
 type finding struct{ key, what string }
@@ -327,7 +329,7 @@ const (
 )
 
 func openDB(kind, dir string) (api.NodeDB, error) {
-	cfg := &api.Config{DB: dir, NoFsync: true, Namespace: testNs, MaxCacheSize: 4 * 1024 * 1024}
+	cfg := &api.Config{DB: dir, NoFsync: true, Namespace: testNs, MaxCacheSize: 4 * 1024 * 1024, MemoryOnly: memOnly}
 	if kind == "badger" {
 		return badgerDb.New(cfg)
 	}
@@ -344,7 +346,7 @@ func newRunner(kind string, pl *plan) (*runner, error) {
 		os.RemoveAll(dir)
 		return nil, err
 	}
-	r := &runner{kind: kind, dir: dir, pl: pl, seen: map[string]bool{}, nodeID: map[hash.Hash]int{}, reach: map[int][]int{},
+	r := &runner{kind: kind, dir: dir, pl: pl, seen: map[string]bool{}, nodeID: map[hash.Hash]int{}, reach: map[int][]int{}, inl: map[int][]int{},
 		putAt: map[int]map[int]bool{}, stats: map[string]int{}, lastBad: map[string]bool{}, putsBy: map[string]map[int]bool{}, removedBy: map[string]map[int]bool{}}
 	r.rec = &recDB{NodeDB: ndb}
 	r.ndb = r.rec
@@ -446,21 +448,38 @@ func (r *runner) observe(o *opObs) {
 	}
 }
 
-func (r *runner) collectReach(ri *rootInfo) []int {
-	var out []int
+// collectReach lists the nodes of a root in the order of api.Visit (node, attached leaf, left,
+// right) and those among them that are serialized inside their parent (attached leaves).
+func (r *runner) collectReach(ri *rootInfo) (out, inl []int) {
 	if ri.rid < 2 {
-		return out
+		return
 	}
-	seen := map[int]bool{}
-	_ = api.Visit(context.Background(), r.rec.NodeDB, ri.root(), func(_ context.Context, n node.Node) bool {
-		id := r.nid(n.GetHash())
-		if !seen[id] {
-			seen[id] = true
-			out = append(out, id)
+	root := ri.root()
+	var walk func(ptr *node.Pointer, inline bool)
+	walk = func(ptr *node.Pointer, inline bool) {
+		if ptr == nil {
+			return
 		}
-		return true
-	})
-	return out
+		nd := ptr.Node
+		if nd == nil {
+			var err error
+			if nd, err = r.rec.NodeDB.GetNode(root, ptr); err != nil {
+				return
+			}
+		}
+		id := r.nid(nd.GetHash())
+		out = append(out, id)
+		if inline {
+			inl = append(inl, id)
+		}
+		if n, ok := nd.(*node.InternalNode); ok {
+			walk(n.LeafNode, n.LeafNode != nil && n.LeafNode.Node != nil)
+			walk(n.Left, false)
+			walk(n.Right, false)
+		}
+	}
+	walk(&node.Pointer{Clean: true, Hash: root.Hash}, false)
+	return
 }
 
 func (r *runner) step(op Op) (o opObs) {
@@ -520,6 +539,14 @@ func (r *runner) step(op Op) (o opObs) {
 		if r.ref.present[ri.ver] == nil {
 			r.ref.present[ri.ver] = map[int]bool{}
 		}
+		// domain of the property: candidates derive from a finalized root of the previous version
+		// or from a candidate of the same version
+		if oi != nil && oi.rid >= 2 && !(r.ref.present[oi.ver][oi.rid] && (oi.ver == ri.ver || r.ref.finalized[oi.ver])) {
+			r.outOfDomain = true
+		}
+		if r.ref.hasLast && ri.ver != r.ref.last+1 {
+			r.outOfDomain = true
+		}
 		fresh := !r.ref.present[ri.ver][ri.rid]
 		r.ref.present[ri.ver][ri.rid] = true
 		if fresh && oi != nil && oi.rid >= 2 {
@@ -533,9 +560,9 @@ func (r *runner) step(op Op) (o opObs) {
 		}
 		if r.kind == "badger" {
 			if _, ok := r.reach[ri.rid]; !ok {
-				r.reach[ri.rid] = r.collectReach(ri)
+				r.reach[ri.rid], r.inl[ri.rid] = r.collectReach(ri)
 			}
-			o.reach = r.reach[ri.rid]
+			o.reach, o.inl = r.reach[ri.rid], r.inl[ri.rid]
 			if fresh {
 				if r.putAt[int(ri.ver)] == nil {
 					r.putAt[int(ri.ver)] = map[int]bool{}
@@ -621,7 +648,7 @@ func (r *runner) step(op Op) (o opObs) {
 
 // oracle evaluates the property on the implementation after an operation.
 func (r *runner) oracle(op Op, o *opObs) {
-	if r.stopOracle {
+	if r.stopOracle || r.unsupported || r.outOfDomain {
 		return
 	}
 	report := func(key, what string) {
@@ -752,7 +779,14 @@ func (r *runner) missingNodes(ro rootObs) map[int]bool {
 	for h, id := range r.nodeID {
 		inv[id] = h
 	}
+	inline := map[int]bool{}
+	for _, n := range r.inl[ro.rid] {
+		inline[n] = true
+	}
 	for _, n := range r.reach[ro.rid] {
+		if inline[n] {
+			continue
+		}
 		if _, err := r.rec.NodeDB.GetNode(root, &node.Pointer{Clean: true, Hash: inv[n]}); err != nil {
 			missing[n] = true
 		}
@@ -814,13 +848,19 @@ func (r *runner) finalizeShape(v uint64, ro rootObs) string {
 		}
 		return false
 	}
-	reput, removed := true, true
+	reput, removed := false, false
 	for n := range missing {
 		if inAny(r.putsBy, r.lastFinal, n) {
 			return ""
 		}
-		reput = reput && inAny(r.putsBy, r.lastDiscarded, n)
-		removed = removed && inAny(r.removedBy, r.lastFinal, n)
+		switch {
+		case inAny(r.putsBy, r.lastDiscarded, n):
+			reput = true
+		case inAny(r.removedBy, r.lastFinal, n):
+			removed = true
+		default:
+			return ""
+		}
 	}
 	switch {
 	case reput:
@@ -836,6 +876,8 @@ type caseResult struct {
 	viol        []string
 	finds       []finding
 	unsupported bool
+	outOfDomain bool
+	cutAt       int // K compares ops[0..cutAt] only: after badger lost a node, reads depend on tree paths
 	stats       map[string]int
 	crashed     string
 }
@@ -865,6 +907,7 @@ func runCase(c Case, pl *plan) caseResult {
 	}
 	defer rp.close()
 	diverged := false
+	res.cutAt = len(c.Ops) - 1
 	for i, op := range c.Ops {
 		ob := rb.step(op)
 		rb.observe(&ob)
@@ -883,6 +926,9 @@ func runCase(c Case, pl *plan) caseResult {
 		}
 		res.obsB = append(res.obsB, ob)
 		res.obsP = append(res.obsP, opp)
+		if rb.stopOracle && res.cutAt == len(c.Ops)-1 {
+			res.cutAt = i
+		}
 		// backend equivalence on histories both accept, up to the first divergence caused by a reported defect
 		if rp.unsupported || diverged || rb.stopOracle {
 			continue
@@ -914,6 +960,7 @@ func runCase(c Case, pl *plan) caseResult {
 		}
 	}
 	res.unsupported = rp.unsupported
+	res.outOfDomain = rb.outOfDomain || rp.outOfDomain
 	res.viol = append(rb.viol, rp.viol...)
 	res.finds = append(rb.findings, rp.findings...)
 	return res
@@ -941,7 +988,7 @@ func coqOp(op Op, pl *plan, o opObs) string {
 		for i, w := range op.Writes {
 			ws[i] = fmt.Sprintf("(%d, %d)", w.Key, w.Val)
 		}
-		return fmt.Sprintf("OCommit %d %d %d %s %s %s %s %s", op.Ver, ri.typ, ri.rid, old, coqout.List(ws), nlist(o.puts), nlist(o.removed), nlist(o.reach))
+		return fmt.Sprintf("OCommit %d %d %d %s %s %s %s %s %s", op.Ver, ri.typ, ri.rid, old, coqout.List(ws), nlist(o.puts), nlist(o.removed), nlist(o.reach), nlist(o.inl))
 	case "finalize":
 		var rs []int
 		for _, n := range op.Roots {
@@ -1227,7 +1274,16 @@ func failing(c Case, want string) bool {
 	if !pl.valid {
 		return false
 	}
+	if shrinkBudget <= 0 {
+		return false
+	}
+	shrinkBudget--
+	memOnly = true
 	res := runCase(c, pl)
+	memOnly = false
+	if res.outOfDomain {
+		return false
+	}
 	for _, f := range res.finds {
 		if f.key == want {
 			return true
@@ -1255,7 +1311,11 @@ func sameKind(a, b string) bool {
 	return strip(a) == strip(b)
 }
 
+var shrinkBudget int
+var memOnly bool
+
 func shrink(c Case, want string) Case {
+	shrinkBudget = 120
 	for changed := true; changed; {
 		changed = false
 		for i := len(c.Ops) - 1; i >= 0; i-- {
@@ -1393,6 +1453,9 @@ func main() {
 				fmt.Printf("op %d %+v\n  badger     %s %s\n  pathbadger %s %s\n", i, op, coqObs(o, false), o.errText, coqObs(res.obsP[i], false), res.obsP[i].errText)
 			}
 		}
+		if res.outOfDomain {
+			sum.Count("misc", "history-out-of-domain(successful commit on a non-finalized root of an earlier version)")
+		}
 		sum.Count("profile", c.Profile)
 		sum.Count("ops_per_history", fmt.Sprint(len(c.Ops)/10*10)+"+")
 		if res.unsupported {
@@ -1406,10 +1469,14 @@ func main() {
 		seen[string(key)] = true
 		sum.Sample(c, 2)
 		// Coq case: (ops, compare_pathbadger), (badger observations, pathbadger observations)
-		ops := make([]string, len(c.Ops))
-		ob := make([]string, len(c.Ops))
-		op2 := make([]string, len(c.Ops))
-		for i, op := range c.Ops {
+		nk := res.cutAt + 1
+		if nk < len(c.Ops) {
+			sum.Count("misc", "case-truncated-for-K-after-badger-lost-a-node")
+		}
+		ops := make([]string, nk)
+		ob := make([]string, nk)
+		op2 := make([]string, nk)
+		for i, op := range c.Ops[:nk] {
 			ops[i] = coqOp(op, pl, res.obsB[i])
 			ob[i] = coqObs(res.obsB[i], false)
 			op2[i] = coqObs(res.obsP[i], c.Ops[i].K == "commit")
